@@ -102,11 +102,20 @@ func (p c01) Run(c *core.Ctx) {
 	var plan map[string]world.SubPlan
 	if c.Index < rc && c.Index%4 == 3 {
 		// interface-only graph with a substituting post-processor: versions (wrappers) must be shared like instances
-		sc = RandomGraph(c.Rng, GraphOpts{MinN: 2, MaxN: 9, Types: plainAB, PCycle: 0.8, Chords: 2, ByTypeSlice: 0.3, OnlyIface: true, PUnnamed: 0.3})
+		// every third of these cases uses decorated copies of the component's own concrete type (they also fit
+		// pointer-typed fields), the others wrappers of another type (interface-typed slots only)
+		sameType := c.Rng.Intn(3) == 0
+		gopts := GraphOpts{MinN: 2, MaxN: 9, Types: plainAB, PCycle: 0.8, Chords: 2, ByTypeSlice: 0.3, OnlyIface: true, PUnnamed: 0.3}
+		if sameType {
+			gopts.OnlyIface, gopts.Types = false, plainAny
+		}
+		sc = RandomGraph(c.Rng, gopts)
 		plan = map[string]world.SubPlan{}
 		for x := 0; x < 1+c.Rng.Intn(2); x++ {
 			nm := sc.Nodes[c.Rng.Intn(len(sc.Nodes))].DisplayName()
-			plan[nm] = []world.SubPlan{{Early: true}, {Early: true}, {After: true}, {Before: true}, {Early: true, After: true}, {Early: true, Before: true}, {Early: true, After: true, Same: true}}[c.Rng.Intn(7)]
+			pl := []world.SubPlan{{Early: true}, {Early: true}, {After: true}, {Before: true}, {Early: true, After: true}, {Early: true, Before: true}, {Early: true, After: true, Same: true}}[c.Rng.Intn(7)]
+			pl.SameType = sameType
+			plan[nm] = pl
 		}
 		if c.Rng.Intn(4) == 0 {
 			// a holder that declares the concrete type of a component which the post-processor replaces by a
@@ -208,37 +217,7 @@ func (p c01) Run(c *core.Ctx) {
 		if plan == nil {
 			problems = append(problems, checkGetComponents(r, pop)...)
 		}
-		// a lookup under a name nothing is registered under - e.g. the default (type) name of a component
-		// that carries a custom name - either fails or is an alias of what is published: it never produces
-		// a further copy of a singleton
-		{
-			publishedObj := map[any]bool{}
-			unnamedType := map[int]bool{}
-			for i := range sc.Nodes {
-				if sc.Nodes[i].Name == "" {
-					unnamedType[sc.Nodes[i].Type] = true
-				}
-				var o any
-				r.Guard(func() { o, _ = r.App.GetComponentByName(sc.Nodes[i].DisplayName()) })
-				if o != nil {
-					publishedObj[o] = true
-				}
-			}
-			for i := range sc.Nodes {
-				if sc.Nodes[i].Name == "" || unnamedType[sc.Nodes[i].Type] {
-					continue
-				}
-				dn := world.Palette[sc.Nodes[i].Type].DefaultName
-				var o any
-				var err error
-				r.Guard(func() { o, err = r.App.GetComponentByName(dn) })
-				c.Count("lookups_under_unregistered_type_names", 1)
-				if err == nil && o != nil && !publishedObj[o] {
-					problems = append(problems, fmt.Sprintf("GetComponentByName(%q): nothing is registered under that name (the %s instances carry custom names), yet the lookup returned %p - an object that is not the published instance of any registered name", dn, world.Palette[sc.Nodes[i].Type].TypeName, o))
-					break
-				}
-			}
-		}
+		problems = append(problems, checkTypeNameLookups(c, r, sc)...)
 		ev := r.Tracer.Events()
 		for name, k := range EarlyRunsPerCreation(ev) {
 			if k > 1 {
@@ -336,4 +315,36 @@ func checkGetComponents(r *world.Run, pop []world.Comp) []string {
 		out = append(out, fmt.Sprintf("GetComponents returns %d objects for %d registered components", len(all), len(pop)))
 	}
 	return out
+}
+
+// checkTypeNameLookups: a lookup under a name nothing is registered under - the default (type) name of a
+// component that carries a custom name - either fails or is an alias of what is published: it never
+// produces a further copy (or a further version) of a singleton.
+func checkTypeNameLookups(c *core.Ctx, r *world.Run, sc *world.Scenario) []string {
+	publishedObj := map[any]bool{}
+	unnamedType := map[int]bool{}
+	for i := range sc.Nodes {
+		if sc.Nodes[i].Name == "" {
+			unnamedType[sc.Nodes[i].Type] = true
+		}
+		var o any
+		r.Guard(func() { o, _ = r.App.GetComponentByName(sc.Nodes[i].DisplayName()) })
+		if o != nil {
+			publishedObj[o] = true
+		}
+	}
+	for i := range sc.Nodes {
+		if sc.Nodes[i].Name == "" || unnamedType[sc.Nodes[i].Type] {
+			continue
+		}
+		dn := world.Palette[sc.Nodes[i].Type].DefaultName
+		var o any
+		var err error
+		r.Guard(func() { o, err = r.App.GetComponentByName(dn) })
+		c.Count("lookups_under_unregistered_type_names", 1)
+		if err == nil && o != nil && !publishedObj[o] {
+			return []string{fmt.Sprintf("GetComponentByName(%q): nothing is registered under that name (the %s instances carry custom names), yet the lookup returned %p - an object that is not the published instance of any registered name", dn, world.Palette[sc.Nodes[i].Type].TypeName, o)}
+		}
+	}
+	return nil
 }
